@@ -29,6 +29,7 @@ func checkC18(r *Run) {
 	}
 	r.Stats["packages"] = len(p.Repo)
 	r.Rule("C18.R1.gate", "Enforce returns nil only across allowRequest(req, policies) == true on policies retrieved for req.Subject; allowRequest is called only there", 3)
+	r.Rule("C18.R3.resource", "the role and policy writers delete the ontology resource they defined (with its edges) when they delete the table row: access checks resolve a subject's policies through those edges, so a role or policy that only loses its row keeps (or, when its key is reused, regains) its grants", 2)
 	r.Rule("C18.R2.cover", "allowRequest returns true only after every requested object set a per-iteration flag across edges establishing action membership, type equality and (type-wide or key equality)", 5)
 
 	enforce := p.Func(rbacPkg, "Enforcer", "Enforce")
@@ -40,6 +41,7 @@ func checkC18(r *Run) {
 	}
 	checkEnforceGate(r, p, enforce, allow, retrieve)
 	checkAllowCover(r, p, allow)
+	checkResourceLifecycle(r, p)
 }
 
 func checkEnforceGate(r *Run, p *Prog, enforce, allow, retrieve *FuncNode) {
@@ -309,4 +311,52 @@ func checkAllowCover(r *Run, p *Prog, fn *FuncNode) {
 func (c *FuncCFG) reachAvoidingBlocks(starts []Point, avoid map[*cfg.Block]bool) (*Query, map[Point]bool) {
 	q := &Query{C: c, StopEdge: func(b *cfg.Block, s int) bool { return avoid[b.Succs[s]] }}
 	return q, q.Run(starts...)
+}
+
+// checkResourceLifecycle decides C18.R3: a writer whose Create defines an ontology
+// resource must delete it in Delete, on every path that returns nil. (Thirteen of the
+// service writers in core/pkg/service do; the rbac role and policy writers are the ones
+// the access decision depends on.)
+func checkResourceLifecycle(r *Run, p *Prog) {
+	for _, pk := range []string{rbacPkg + "/role", rbacPkg + "/policy"} {
+		create := p.Func(pk, "Writer", "Create")
+		del := p.Func(pk, "Writer", "Delete")
+		if create == nil || del == nil {
+			r.Undecide("C18.R3: %s Writer.Create / Delete not found", pk)
+			continue
+		}
+		defines := len(CallsIn(create, methodNameIs("DefineResource")))+len(CallsIn(create, methodNameIs("DefineManyResources"))) > 0
+		if !defines {
+			r.ObTrivial("C18.R3.resource", pk+".Writer defines no ontology resource", p.Position(create.Pos()), true, "")
+			continue
+		}
+		c := p.CFG(del)
+		isDel := func(n ast.Node) bool {
+			return nodeHasCall(del, n, func(o types.Object, _ *ast.CallExpr) bool {
+				f, ok := o.(*types.Func)
+				return ok && (f.Name() == "DeleteResource" || f.Name() == "DeleteManyResources")
+			})
+		}
+		q, vis := c.ReachAvoiding([]Point{c.Entry()}, nil, isDel)
+		var path []string
+		for _, ex := range c.Exits() {
+			if !vis[ex.P] || ex.Return == nil || len(ex.Return.Results) != 1 {
+				continue
+			}
+			// a return of nil, or of a call that is not the resource deletion itself, ends the
+			// function without deleting the resource
+			if isDel(ex.Return) {
+				continue
+			}
+			if isNilIdent(del, ex.Return.Results[0]) {
+				path = q.PathTo(ex.P)
+				continue
+			}
+			if _, isCall := ast.Unparen(ex.Return.Results[0]).(*ast.CallExpr); isCall {
+				path = q.PathTo(ex.P)
+			}
+		}
+		r.ObPath("C18.R3.resource", pk+".Writer.Delete removes the ontology resource it defined", p.Position(del.Pos()), path == nil,
+			"Delete can succeed with only the table row removed: the resource and its role->subject / role->policy edges stay, and the next access check still resolves the grant through them", path)
+	}
 }
